@@ -3,8 +3,9 @@ import json
 import re
 
 from .c14 import _pure_int_const, lit_str_of
-from .engine import comparison_of, normalise_le
-from .lib import PLUMBING, callee_allow, closure_of_operand, operand_local, status_const_of_ctor, try_edges
+from .lib import ITER_PLUMBING, PLUMBING, callee_allow, closure_of_operand, http_error_ctors_on_error_path, operand_local, result_split, status_const_of_ctor
+from .lib_c20 import (ABSORB, chain_calls, chain_closures, enforced_at, hasher_lineage, hasher_root, lift_atom, origin_chains, pattern_answers, resolve_lit,
+                      separator_answers)
 
 LEVEL = "other"
 TECHNIQUE = ("static analysis: per-header guard dominance over the only WebsocketUpgrade constructor (accept edge dominates it, reject edge returns for_bad_request), evaluated constants "
@@ -108,72 +109,60 @@ def _ret_defs(f, blocks):
     return out
 
 
-def _bool_root(f, sbb):
-    """Follow Not / copies from a bool switch to the call that produced the value: (negated, call term) or None."""
-    info = f.switch_on(sbb)
-    if info["kind"] != "bool":
-        return None
-    dbb, kind, node = info["def"]
-    neg = False
-    for _ in range(6):
-        if kind == "call":
-            return neg, node
-        if kind == "assign" and node["rv"]["rv"] == "unop" and node["rv"]["op"] == "Not":
-            neg = not neg
-            op = node["rv"]["a"]
-        elif kind == "assign" and node["rv"]["rv"] == "use":
-            op = node["rv"]["op"]
-        else:
-            return None
-        l = operand_local(op)
-        ds = f.defs().get(l, []) if l is not None else []
-        if len(ds) != 1:
-            return None
-        dbb, kind, node = ds[0]
-    return None
+EQ_IC = r"str::<impl str>::eq_ignore_ascii_case$"
+SPLIT = r"str::<impl str>::(split|rsplit|split_terminator|split_whitespace|split_ascii_whitespace)$"
+TRIM = r"str::<impl str>::trim$"
+# value-preserving views / traversals that may lie between HeaderMap::get*(H) and the compared list element
+ELEMENT_CHAIN = PLUMBING + ITER_PLUMBING + OPT_FLOW + [
+    GET, HEADERS, r"^http::header::GetAll::<'a, T>::iter$", r"iter::Iterator::(filter_map|filter|map|flat_map|flatten|any|find|copied|cloned|rev|inspect)$",
+    r"^http::HeaderValue::to_str$", r"Result::<T, E>::ok$", SPLIT, TRIM, r"str::<impl str>::trim_matches$", EQ_IC,
+    r"Option::<T>::(unwrap_or|unwrap_or_default|is_some_and|map_or|into_iter|iter)$", r"iter::IntoIterator::into_iter$"]
 
 
-def _const_bool(op):
-    if op.get("k") == "const" and op.get("ty") == "bool" and op.get("val") and "int" in op["val"]:
-        return bool(op["val"]["int"])
-    return None
-
-
-def _absent_default(term):
-    """For the Option fold that ends a header test: the bool produced when the header is absent."""
-    c = term.get("callee") or ""
-    if re.search(r"Option::<T>::unwrap_or$", c) or re.search(r"Option::<T>::map_or$", c):
-        return _const_bool(term["args"][1])
-    if re.search(r"Option::<T>::(is_some_and|unwrap_or_default)$", c):
-        return False
-    if re.search(r"iter::Iterator::any$", c):
-        return False          # any() over the (possibly empty) sequence of field lines
-    return None
-
-
-def _guard_candidates(b, get_bb, site):
-    """Switches decided by the result of the header lookup at get_bb that have one edge which
-    dominates `site` and other edges that cannot reach it: [(switch_bb, accept, [reject..])]."""
+def _token_tests(ctx, b, gbb):
+    """Element tests of one list header: every `a.eq_ignore_ascii_case(b)` in from_request (helpers inlined) or a closure
+    below it, one side of which is an element that originates from the header lookup in block gbb of `b` — through a
+    `for` loop or through the item parameter of closures handed to iterator adaptors — with the literal on the other side."""
     out = []
-    reach = b.reachable(0)
-    for sbb, t in b.switches():
-        if sbb not in reach or site not in b.reachable(sbb):
+    for g in [b] + ctx.ds.descendants(b):
+        for ebb, et in g.live_calls(EQ_IC):
+            if len(et["args"]) != 2:
+                continue
+            for side in (0, 1):
+                for ch in origin_chains(ctx.ds, g, et["args"][side]):
+                    if ch[-1].fn is not b or not any(bb == gbb for _, bb, _ in ch[-1].sl.calls(GET)):
+                        continue
+                    out.append({"g": g, "ebb": ebb, "chain": ch, "lit": resolve_lit(ch, et["args"][1 - side])})
+    return out
+
+
+def _version_tests(b, gbb):
+    """Equality tests of the header value looked up in block gbb against constant bytes: [(bb, 'eq'|'ne', values, value-slice, literal-slice)]."""
+    out = []
+    for cbb, ct in b.live_calls(r"cmp::PartialEq::(eq|ne)$"):
+        if len(ct["args"]) != 2:
             continue
-        sl = b.slice(t["discr"])
-        if not any(bb == get_bb for _, bb, _ in sl.calls(GET)):
-            continue
-        succ = [s for s in b.succ(sbb) if not b.is_diverging(s)]
-        acc = [s for s in succ if site in b.reachable(s)]
-        rej = [s for s in succ if site not in b.reachable(s)]
-        out.append((sbb, acc, rej, sl))
+        for vi in (0, 1):
+            vs, ls = b.slice(ct["args"][vi]), b.slice(ct["args"][1 - vi])
+            if not any(bb == gbb for _, bb, _ in vs.calls(GET)) or ls.callees or ls.params():
+                continue
+            vals = []
+            for a in ls.atoms:
+                if a[0] in ("lit", "const"):
+                    try:
+                        v = json.loads(a[1] if a[0] == "lit" else a[2])
+                    except Exception:
+                        v = None
+                    vals.append(v.get("str") if isinstance(v, dict) else None)
+            out.append((cbb, ct["callee"].rsplit("::", 1)[-1], vals, vs, ls))
     return out
 
 
 # ------------------------------------------------------------------------------------------------ R1
 def r1_four_checks(ctx):
-    R = ctx.rule("C20.R1", "the construction of WebsocketUpgrade in from_request is dominated, for each of Connection / Upgrade / Sec-WebSocket-Version / Sec-WebSocket-Key, by the accept "
-                 "edge of a test of HeaderMap::get(that header) of this request; each reject edge returns an error built by for_bad_request (400) and builds no upgrade; the tests are "
-                 "case-insensitive token `upgrade` / `websocket`, bytes \"13\", presence of the key", floor=18)
+    R = ctx.rule("C20.R1", "the construction of WebsocketUpgrade in from_request is reached, for each of Connection / Upgrade / Sec-WebSocket-Version / Sec-WebSocket-Key, only after a test of "
+                 "HeaderMap::get*(that header) of this request succeeded — some element of a split of the header text equals `upgrade` / `websocket` ignoring ASCII case, the value equals the bytes "
+                 "\"13\", the key is present; every other exit returns an error built by for_bad_request (400) and builds no upgrade", floor=18)
     try:
         w, b = _from_request(ctx, R)
     except LookupError:
@@ -197,6 +186,9 @@ def r1_four_checks(ctx):
         return
     st400 = status_const_of_ctor(ctx.ds, "for_bad_request")
     ctx.check(R, "for_bad_request-is-400", st400 == {400}, "status constants named in for_bad_request: %s" % sorted(st400 or []), nontrivial=False)
+    # exits: every definition of the return value is the Ok(..) after the constructor or an Err(for_bad_request)
+    defs = [(bb, var, op) for bb, var, op in _ret_defs(b, reach) if not b.dominates(site, bb)]
+    good_defs = [bb for bb, var, op in defs if var == "Err" and op is not None and _err_is_400(ctx.ds, b, op)]
     all_gets = b.live_calls(GET)
     for H in MANDATORY:
         gets = [(bb, t) for bb, t in all_gets if _hdr_consts(b.slice(t["args"][1])) == {H}]
@@ -209,103 +201,79 @@ def r1_four_checks(ctx):
         pf = rs.param_fields()
         ctx.check(R, "%s:looked-up-in-this-request" % H, bool(pf) and all(p == 1 and fs and fs[0].startswith("f%d:" % req_idx) for p, fs in pf) and not bad,
                   "receiver of get(%s) is headers() of the captured request (upvar %d) via %s" % (H, req_idx, [x[0] for x in bad] or "headers() only"), (b, gbb))
-        cands = _guard_candidates(b, gbb, site)
-        good = None
-        why = "no switch decided by get(%s) separates the constructor from an early return" % H
-        for sbb, acc, rej, sl in cands:
-            if len(acc) != 1 or not rej:
-                why = "both edges of the test of %s reach the WebsocketUpgrade constructor (the header is not enforced)" % H
-                continue
-            if not b.edge_dominates(sbb, acc[0], site):
-                why = "the accept edge of the test of %s does not dominate the constructor" % H
-                continue
-            good = (sbb, acc[0], rej, sl)
-            break
-        ctx.check(R, "%s:accept-edge-dominates-constructor" % H, good is not None,
-                  ("WebsocketUpgrade(..) is reachable only through the accept edge of the test of %s" % H) if good else why, (b, cands[0][0] if cands else gbb))
-        if good is None:
-            continue
-        sbb, acc, rej, sl = good
-        # reject edges: every path returns a 400
-        ok_rej = True
-        det = []
-        for r in rej:
-            region = b.reachable(r)
-            defs = _ret_defs(b, region)
-            good_defs = [bb for bb, var, op in defs if var == "Err" and op is not None and _err_is_400(ctx.ds, b, op)]
-            bad_defs = [bb for bb, var, op in defs if bb not in good_defs]
-            ok_rej = ok_rej and bool(good_defs) and not bad_defs and b.must_pass(good_defs, start=r)
-            det.append("%d Err(for_bad_request) exit(s), %d other" % (len(good_defs), len(bad_defs)))
-        ctx.check(R, "%s:reject-edge-is-400" % H, ok_rej, "reject edge of the test of %s: %s; every path to the return passes one" % (H, "; ".join(det)), (b, sbb))
-        # the test itself
+        t_atoms, f_atoms = set(), set()
+        test_ok, test_det, test_key = False, "", None
         if H in TOKENS:
-            root = _bool_root(b, sbb)
-            if root is None:
-                ctx.lost(R, "the Option fold producing the %s test's bool" % H)
-                continue
-            neg, term = root
-            dflt = _absent_default(term)
-            tb, fb = b.bool_edges(sbb)
-            truth_edge = fb if neg else tb
-            cls = _closures_on(ctx.ds, sl)
-            tests = []
-            nots = False
-            for g in cls:
-                for cbb, ct in g.live_calls(r"str::<impl str>::eq_ignore_ascii_case$"):
-                    lits = [lit_str_of(g, a) for a in ct["args"]]
-                    tests.append([x.lower() for x in lits if x is not None])
-                rsl = g.slice({"l": 0, "p": []})
-                nots = nots or ("unop", "Not") in rsl.atoms or rsl.has_call(r"Iterator::all$")
-            split = any(g.live_calls(r"str::<impl str>::(split|split_terminator|split_ascii_whitespace|split_whitespace)$") for g in cls)
-            anyc = any(g.live_calls(r"iter::Iterator::any$") for g in cls)
-            cs = any(g.live_calls(r"cmp::PartialEq::(eq|ne)$") for g in cls if g.raw["kind"] == "Closure" and g.slice({"l": 0, "p": []}).has_call(r"cmp::PartialEq::(eq|ne)$") and
-                     any(lit_str_of(g, a) for _, t2 in g.live_calls(r"cmp::PartialEq::(eq|ne)$") for a in t2["args"]))
-            ok = dflt is False and truth_edge == acc and [TOKENS[H]] in tests and not nots and split and anyc and not cs
-            ctx.check(R, "%s:case-insensitive-token-test" % H, ok,
-                      "accept edge = test true: %s; absent header folds to %s; eq_ignore_ascii_case literals %s (want %r) on any() of a split of the header text: %s/%s; negation or case-sensitive compare in the closures: %s"
-                      % (truth_edge == acc, dflt, tests, TOKENS[H], anyc, split, nots or cs), (b, sbb))
+            test_key = "%s:case-insensitive-token-test" % H
+            tests = _token_tests(ctx, b, gbb)
+            mine = [t for t in tests if t["lit"] is not None and t["lit"].lower() == TOKENS[H]]
+            lifted, why = [], []
+            for t in mine:
+                a, reason = lift_atom(ctx.ds, t["chain"], t["ebb"])
+                if a is None:
+                    why.append(reason)
+                    continue
+                split = bool(chain_calls(t["chain"], SPLIT))
+                badc = sorted(set(c for h in t["chain"] for c, _ in callee_allow(h.sl, ELEMENT_CHAIN)) |
+                              set(t2["callee"] or "<indirect>" for g in chain_closures(ctx.ds, t["chain"]) for _, t2 in g.live_calls()
+                                  if not any(re.search(p, t2["callee"] or "") for p in ELEMENT_CHAIN)))
+                if not split:
+                    why.append("the compared value is not an element of a split of the header text")
+                elif badc:
+                    why.append("the element is transformed by %s" % badc)
+                else:
+                    lifted.append(a)
+            t_atoms = set(("call", a) for a in lifted)
+            test_ok = bool(lifted) and not why
+            test_det = ("%d eq_ignore_ascii_case test(s) on elements of %s, literal(s) %s (want %r); %d usable as `some element matches`%s"
+                        % (len(tests), H, sorted(set(str(t["lit"]) for t in tests)), TOKENS[H], len(lifted), ("; " + "; ".join(why)) if why else ""))
         elif H == "SEC_WEBSOCKET_VERSION":
-            c = comparison_of(b, sbb)
-            ok, det = False, "the version test is not an equality comparison"
-            if c:
-                for val_op, lit_op in ((c["a"], c["b"]), (c["b"], c["a"])):
-                    vs, ls = b.slice(val_op), b.slice(lit_op)
-                    if not any(bb == gbb for _, bb, _ in vs.calls(GET)) or ls.callees or ls.params():
-                        continue
-                    lits = [a for a in ls.atoms if a[0] in ("lit", "const")]
-                    vals = []
-                    for a in lits:
-                        try:
-                            v = json.loads(a[1] if a[0] == "lit" else a[2])
-                        except Exception:
-                            v = None
-                        vals.append(v.get("str") if isinstance(v, dict) else None)
-                    if not lits or None in vals:
-                        ctx.lost(R, "evaluated value of the version literal (byte-string constant without a value in the facts)")
-                        det = None
-                        break
-                    some = any(a[0] == "agg" and a[1] == "std::option::Option" and a[2] == "Some" for a in ls.atoms)
-                    eq_edges = [c[e] for rel, x, y, e in normalise_le(c) if rel == "eq"]
-                    badv = callee_allow(vs, PLUMBING + [GET, HEADERS] + OPT_FLOW)
-                    badc = [t2["callee"] for g in _closures_on(ctx.ds, vs) for _, t2 in g.live_calls() if not any(re.search(p, t2["callee"] or "") for p in HV_VIEW + PLUMBING)]
-                    ok = vals == ["13"] and some and eq_edges == [acc] and not badv and not badc
-                    det = "compares Option(header bytes) with Some(%r); accept edge is the equal edge: %s; transformations of the header value: %s" % (vals, eq_edges == [acc], [x[0] for x in badv] + badc or "none")
-            if det is not None:
-                ctx.check(R, "%s:equals-13" % H, ok, det, (b, sbb))
-        else:
-            info = b.switch_on(sbb)
-            tb_ = [(tbb, tt) for tbb, tt in b.live_calls(r"ops::Try::branch$") if info["kind"] == "discr" and tt["dest"]["l"] == info["place"]["l"]]
-            ok, det = False, "the key test is not a `?` on Option::ok_or_else(..)"
-            if len(tb_) == 1:
-                ks = b.slice(tb_[0][1]["args"][0])
-                badk = callee_allow(ks, PLUMBING + [GET, HEADERS] + OPT_FLOW)
-                te = try_edges(b, operand_local(tb_[0][1]["args"][0]))
-                ok = bool(te) and te["cont"] == acc and ks.has_call(r"Option::<T>::ok_or(_else)?$") and not badk
-                det = "`?` on get(KEY)..ok_or_else(..): Continue edge is the accept edge: %s; other callees on the chain: %s" % (bool(te) and te["cont"] == acc, [x[0] for x in badk] or "none")
-            ctx.check(R, "%s:presence-required" % H, ok, det, (b, sbb))
-    # nothing else may return Ok
+            test_key = "%s:equals-13" % H
+            vt = _version_tests(b, gbb)
+            if vt and any(not vals or None in vals for _, _, vals, _, _ in vt):
+                ctx.lost(R, "evaluated value of the version literal (byte-string constant without a value in the facts)")
+                test_key = None
+            else:
+                mine = [x for x in vt if x[2] == ["13"]]
+                badv = sorted(set(c for x in mine for c, _ in callee_allow(x[3], PLUMBING + [GET, HEADERS] + OPT_FLOW + HV_VIEW)) |
+                              set(t2["callee"] for x in mine for g in _closures_on(ctx.ds, x[3]) for _, t2 in g.live_calls() if not any(re.search(p, t2["callee"] or "") for p in HV_VIEW + PLUMBING)))
+                t_atoms = set(("call", x[0]) for x in mine if x[1] == "eq")
+                f_atoms = set(("call", x[0]) for x in mine if x[1] == "ne")
+                test_ok = bool(mine) and not badv
+                test_det = ("the header bytes are compared with %s (want ['13']) by %s; transformations of the header value: %s"
+                            % ([x[2] for x in vt] or "nothing", [x[1] for x in mine] or "no equality test", badv or "none"))
+        # accept side
+        if H == "SEC_WEBSOCKET_KEY":
+            sp = result_split(b, gt["dest"]["l"])
+            ok_acc = bool(sp) and sp["ok"] is not None and b.edge_dominates(sp["switch_bb"], sp["ok"], site) and (sp["err"] is None or site not in b.reachable(sp["err"], avoid_edges=[(sp["switch_bb"], sp["ok"])]))
+            ctx.check(R, "%s:accept-edge-dominates-constructor" % H, ok_acc,
+                      "WebsocketUpgrade(..) is reachable only through the Some edge of get(%s) (split by %s)" % (H, "/".join(sp["via"])) if ok_acc else
+                      "no Some/None split of get(%s) separates the constructor from an early return" % H, (b, sp["switch_bb"] if sp else gbb))
+            ks = b.slice({"l": sp["local"], "p": []}) if sp else None
+            badk = callee_allow(ks, PLUMBING + [GET, HEADERS] + OPT_FLOW + [r"^http::HeaderValue::as_bytes$", "^" + re.escape("websocket::derive_accept_key") + "$"]) if ks else []
+            ctors = http_error_ctors_on_error_path(b, sp) if sp else set()
+            ctx.check(R, "%s:presence-required" % H, bool(sp) and ok_acc and not badk,
+                      "the key lookup is split into present/absent by %s; the present edge leads to the constructor: %s; other callees on the chain: %s"
+                      % ("/".join(sp["via"]) if sp else "nothing", ok_acc, [x[0] for x in badk] or "none"), (b, sp["switch_bb"] if sp else gbb))
+            rel = [d for d in defs if sp and d[0] in b.reachable(sp["err"], avoid_edges=[(sp["switch_bb"], sp["ok"])])] if sp and sp["err"] is not None else []
+            ctx.check(R, "%s:reject-edge-is-400" % H, bool(rel) and all(d[0] in good_defs for d in rel) and ctors == {"error::HttpError::for_bad_request"},
+                      "absent key: %d exit(s), error constructors %s (want for_bad_request only)" % (len(rel), sorted(c.split("::")[-1] for c in ctors)), (b, sp["switch_bb"] if sp else gbb))
+            continue
+        enf, how = enforced_at(b, site, t_atoms, f_atoms) if test_ok else (False, "no usable test of %s" % H)
+        ctx.check(R, "%s:accept-edge-dominates-constructor" % H, enf,
+                  ("WebsocketUpgrade(..) is reached only after the test of %s succeeded (%s)" % (H, how)) if enf else
+                  "the WebsocketUpgrade constructor is not guarded by the test of %s: %s (the header is not enforced)" % (H, how), (b, gbb))
+        # exits that can be taken while the test has not succeeded
+        rel = [d for d in defs if not b.guarded_by(d[0], atoms_true=list(t_atoms), atoms_false=list(f_atoms))[0]] if test_ok else defs
+        ctx.check(R, "%s:reject-edge-is-400" % H, bool(rel) and all(d[0] in good_defs for d in rel),
+                  "exits reachable without a successful test of %s: %d, of which Err(for_bad_request): %d" % (H, len(rel), sum(1 for d in rel if d[0] in good_defs)), (b, gbb))
+        if test_key:
+            ctx.check(R, test_key, test_ok, test_det, (b, gbb))
+    # nothing else may return Ok, and nothing leaves without a verdict
     oks = [bb for bb, i, st in b.aggregates(r"^std::result::Result$", "Ok") if bb in reach]
-    ctx.check(R, "ok-only-after-constructor", bool(oks) and all(b.dominates(site, o) for o in oks), "every Ok(..) of from_request is dominated by the WebsocketUpgrade constructor (%d site(s))" % len(oks), (b, site))
+    ctx.check(R, "ok-only-after-constructor", bool(oks) and all(b.dominates(site, o) for o in oks) and b.must_pass([site] + good_defs) and all(d[0] in good_defs for d in defs),
+              "every Ok(..) of from_request is dominated by the WebsocketUpgrade constructor (%d site(s)); every path to the return passes the constructor or one of %d Err(for_bad_request) exits; other exits: %d"
+              % (len(oks), len(good_defs), sum(1 for d in defs if d[0] not in good_defs)), (b, site))
 
 
 # ------------------------------------------------------------------------------------------------ R2
@@ -313,13 +281,14 @@ def r2_accept_digest(ctx):
     R = ctx.rule("C20.R2", "derive_accept_key = STANDARD-base64(SHA-1(key ++ GUID)) with the RFC 6455 GUID; its argument is the raw bytes of the Sec-WebSocket-Key header and its result "
                  "is the only origin of the Sec-WebSocket-Accept header value", floor=9)
     f = ctx.need_fn(ctx.ds, R, r"^websocket::derive_accept_key$")
-    ups = f.live_calls(r"^sha1::Digest::update$|digest::Digest::update$")
-    fin = f.live_calls(r"^sha1::Digest::finalize$|digest::Digest::finalize$")
+    # absorb events: `h.update(x)` on a `&mut` state or `h.chain_update(x)` threading the state by value
+    ups = f.live_calls(ABSORB)
+    fin = f.live_calls(r"(^|::)Digest::finalize$")
     encs = f.live_calls(r"^base64::Engine::encode$")
     if len(ups) != 2 or len(fin) != 1 or len(encs) != 1:
-        ctx.lost(R, "two Digest::update, one finalize, one Engine::encode in derive_accept_key (%d/%d/%d)" % (len(ups), len(fin), len(encs)))
+        ctx.lost(R, "two Digest::update / chain_update, one finalize, one Engine::encode in derive_accept_key (%d/%d/%d)" % (len(ups), len(fin), len(encs)))
         return
-    # classify the updates by their data argument
+    # classify the absorbed data
     key_up = guid_up = None
     guid_val = None
     for bb, t in ups:
@@ -338,37 +307,30 @@ def r2_accept_digest(ctx):
             guid_up = (bb, t)
             guid_val = vals
     if key_up is None or guid_up is None:
-        ctx.check(R, "updates-are-key-and-guid", False, "the two Digest::update calls are not (the key argument unmodified, a constant)", f)
+        ctx.check(R, "updates-are-key-and-guid", False, "the two absorbed values are not (the key argument unmodified, a constant)", f)
         return
     if not guid_val or None in guid_val:
         ctx.lost(R, "evaluated value of the GUID constant (byte-string constant without a value in the facts)")
     else:
         ctx.check(R, "guid-value", guid_val == [GUID], "constant hashed after the key = %r (RFC 6455: %r)" % (guid_val, GUID), (f, guid_up[0]))
-    # one hasher
-    def hasher(op):
-        s = f.slice(op, stop_at_calls=r".")
-        return set(l for l in s.locals() if re.search(r"sha1::|Sha1", f.local_ty(l)) and not f.local_ty(l).startswith("&"))
-    hk, hg, hf = hasher(key_up[1]["args"][0]), hasher(guid_up[1]["args"][0]), hasher(fin[0][1]["args"][0])
-    ctx.check(R, "one-sha1-state", bool(hk) and hk == hg and hk <= hf, "both updates and finalize operate on the same SHA-1 state (locals %s / %s / %s of type %s)"
-              % (sorted(hk), sorted(hg), sorted(hf), sorted(set(f.local_ty(l) for l in hk))[:1]), f)
-    inits = []
-    for l in hk:
-        for bb, kind, node in f.defs().get(l, []):
-            if kind == "call":
-                inits.append(node.get("callee"))
-            elif kind == "assign" and node["rv"]["rv"] != "use":
-                inits.append(node["rv"]["rv"])
-    ctx.check(R, "fresh-sha1-state", bool(inits) and all(re.search(r"Default::default$|Digest::new$", i or "") for i in inits), "hasher initialised by %s" % inits, f)
+    # one hasher: the state that is finalized is the state (or, for chain_update, the successor of the state) both values were absorbed into
+    SHA = r"sha1::|Sha1"
+    lin, inits, probs = hasher_lineage(f, fin[0][1], SHA)
+    hk, hg = hasher_root(f, key_up[1]["args"][0], SHA), hasher_root(f, guid_up[1]["args"][0], SHA)
+    ctx.check(R, "one-sha1-state", bool(lin) and hk in lin and hg in lin and not probs, "both absorbed values and finalize operate on one SHA-1 state lineage (locals %s; key into %s, GUID into %s)%s"
+              % (sorted(lin), hk, hg, ("; " + "; ".join(probs)) if probs else ""), f)
+    ctx.check(R, "fresh-sha1-state", len(inits) == 1 and not probs, "hasher initialised by %s" % inits, f)
     ctx.check(R, "key-then-guid-then-finalize", f.dominates(key_up[0], guid_up[0]) and f.dominates(guid_up[0], fin[0][0]) and key_up[0] != guid_up[0]
               and key_up[0] not in f.loop_blocks() and guid_up[0] not in f.loop_blocks(),
-              "update(key) dominates update(GUID) dominates finalize(): %s / %s" % (f.dominates(key_up[0], guid_up[0]), f.dominates(guid_up[0], fin[0][0])), (f, guid_up[0]))
+              "absorb(key) dominates absorb(GUID) dominates finalize(): %s / %s" % (f.dominates(key_up[0], guid_up[0]), f.dominates(guid_up[0], fin[0][0])), (f, guid_up[0]))
     ebb, et = encs[0]
     eng = sorted(set(a[1] for a in f.slice(et["args"][0]).atoms if a[0] == "const"))
     ds_ = f.slice(et["args"][1])
-    badd = callee_allow(ds_, PLUMBING + [r"Digest::(update|finalize)$", r"Default::default$", r"Digest::new$", r"AsRef::as_ref$", r"GenericArray.*as_slice$"])
+    DIGEST_OPS = [ABSORB, r"(^|::)Digest::finalize$", r"Default::default$", r"(^|::)Digest::new$", r"AsRef::as_ref$", r"GenericArray.*as_slice$", r"<impl \[T\]>::(as_ref|to_vec)$"]
+    badd = callee_allow(ds_, PLUMBING + DIGEST_OPS)
     ret = f.slice({"l": 0, "p": []})
     ctx.check(R, "standard-base64-of-the-digest", len(eng) == 1 and bool(re.search(r"(^|::)STANDARD$", eng[0])) and any(bb == fin[0][0] for _, bb, _ in ds_.calls(r"Digest::finalize$")) and not badd
-              and any(bb == ebb for _, bb, _ in ret.calls(r"Engine::encode$")) and not callee_allow(ret, PLUMBING + [r"Engine::encode$", r"Digest::(update|finalize)$", r"Default::default$", r"Digest::new$", r"AsRef::as_ref$"]),
+              and any(bb == ebb for _, bb, _ in ret.calls(r"Engine::encode$")) and not callee_allow(ret, PLUMBING + [r"Engine::encode$"] + DIGEST_OPS),
               "engine %s, data = finalize() via %s, result returned unmodified" % (eng, [x[0] for x in badd] or "a borrow only"), (f, ebb))
     # the argument: raw bytes of the key header; the result: accept_key of the inner struct
     try:
@@ -382,24 +344,39 @@ def r2_accept_digest(ctx):
         ctx.lost(R, "the single WebsocketUpgradeInner{..accept_key..} aggregate (in from_request: %d, anywhere: %d)" % (len(inner), len(all_inner)))
         return
     ibb, ist = inner[0]
+    # the stored value: whatever the idiom (Option::map(closure) chain + `?`, or a match arm calling it directly), the slice of
+    # the field operand — plus the closures applied on it — contains exactly one call of derive_accept_key and otherwise only
+    # the lookup of the key header, Option plumbing, HeaderValue::as_bytes and the construction of the 400 error
     ks = b.slice(ist["rv"]["ops"][fields.index("accept_key")])
-    badk = callee_allow(ks, PLUMBING + [GET, HEADERS] + OPT_FLOW)
+    VIEW = [r"^http::HeaderValue::as_bytes$"]
+    badk = callee_allow(ks, PLUMBING + [GET, HEADERS] + OPT_FLOW + VIEW + ["^" + re.escape(f.id) + "$"])
     hdrs = _hdr_consts(ks)
     cls = [g for g in _closures_on(ctx.ds, ks)]
     derive_sites, other = [], []
-    for g in cls:
-        for cbb, ct in g.live_calls():
+    for g in [b] + cls:
+        calls = g.live_calls() if g is not b else [(bb2, t2) for c2, bb2, t2 in ks.callees]
+        for cbb, ct in calls:
             c = ct.get("callee") or ""
             if c == f.id:
-                a = g.slice(ct["args"][0])
-                derive_sites.append((g, cbb, a.params() == [2] and not a.callees))
-            elif re.search(r"^http::HeaderValue::as_bytes$", c) or re.search(BAD, c) or re.search(r"ToString::to_string$", c):
+                if not any(d[0] is g and d[1] == cbb for d in derive_sites):
+                    derive_sites.append((g, cbb, ct))
+            elif g is b or re.search(r"^http::HeaderValue::as_bytes$", c) or re.search(BAD, c) or re.search(r"ToString::to_string$|ToOwned::to_owned$|convert::(From::from|Into::into)$", c):
                 pass
             else:
                 other.append(c)
-    ctx.check(R, "accept-key-is-digest-of-raw-key-bytes", hdrs == {"SEC_WEBSOCKET_KEY"} and not badk and len(derive_sites) == 1 and derive_sites[0][2] and not other,
-              "WebsocketUpgradeInner.accept_key <- get(%s) -> as_bytes -> derive_accept_key (sites %d, argument is the mapped value unmodified: %s); other operations on the chain: %s"
-              % (sorted(hdrs), len(derive_sites), [d[2] for d in derive_sites], [x[0] for x in badk] + other or "none"), (b, ibb))
+    arg_ok, arg_det = [], []
+    for g, cbb, ct in derive_sites:
+        # the argument of derive_accept_key: bytes view of the looked-up header value, nothing else
+        for ch in origin_chains(ctx.ds, g, ct["args"][0]):
+            bad_a = sorted(set(c for h in ch for c, _ in callee_allow(h.sl, PLUMBING + [GET, HEADERS] + OPT_FLOW + VIEW)))
+            lits = [a for h in ch for a in h.sl.atoms if a[0] == "lit" or (a[0] == "const" and not re.search(r"(^|::)header::[A-Z_0-9]+$", a[1]))]
+            from_key = ch[-1].fn is b and set(x for h in ch for x in _hdr_consts(h.sl)) == {"SEC_WEBSOCKET_KEY"} and bool(ch[-1].sl.calls(GET))
+            views = len(chain_calls(ch, VIEW[0])) + sum(1 for g2 in chain_closures(ctx.ds, ch) if g2 is not g for _ in g2.live_calls(VIEW[0]))
+            arg_ok.append(from_key and not bad_a and not lits and views == 1)
+            arg_det.append("from get(KEY): %s, as_bytes views: %d, other operations: %s" % (from_key, views, bad_a + [str(x[1])[:30] for x in lits] or "none"))
+    ctx.check(R, "accept-key-is-digest-of-raw-key-bytes", hdrs == {"SEC_WEBSOCKET_KEY"} and not badk and len(derive_sites) == 1 and bool(arg_ok) and all(arg_ok) and not other,
+              "WebsocketUpgradeInner.accept_key <- get(%s) -> as_bytes -> derive_accept_key (sites %d; argument %s); other operations on the chain: %s"
+              % (sorted(hdrs), len(derive_sites), arg_det, [x[0] for x in badk] + other or "none"), (b, ibb))
     dcallers = [(g.id, bb) for g, bb, t in ctx.ds.callers_of("^" + re.escape(f.id) + "$")]
     ctx.check(R, "derive-called-once", len(dcallers) == 1, "call sites of derive_accept_key: %s" % [d[0].split("::")[-1] for d in dcallers], f)
     h = ctx.need_fn(ctx.ds, R, r"^websocket::WebsocketUpgrade::handle$")
@@ -456,9 +433,15 @@ def r3_switching_and_handoff(ctx):
         ctx.lost(R, "tokio::spawn in handle (%d)" % len(sp))
         return
     spbb, spt = sp[0]
+    # the spawned future: an async block built here, an `async fn` helper whose wrapper was inlined (then its coroutine aggregate is
+    # here too), or a call of a crate-local `async fn` that is still a function (resolved to its coroutine and its captured arguments)
     co, node = closure_of_operand(h, spt["args"][0])
+    if co is None or node["rv"].get("agg") != "coroutine":
+        from .lib_c16 import spawned_coroutine
+        co, node = spawned_coroutine(h, spt)
     if co is None:
-        ctx.lost(R, "the coroutine passed to tokio::spawn")
+        skipped = [x for x in ctx.ds.stolen if "SKIPPED" in x and x.startswith("websocket::")]
+        ctx.lost(R, "the coroutine passed to tokio::spawn" + ((" (the extractor has no body for %s)" % ", ".join(skipped)) if skipped else ""))
         return
     ctx.check(R, "task-spawned-before-response", h.dominates(spbb, body[0][0]) and spbb not in h.loop_blocks(),
               "tokio::spawn dominates the construction of the 101 response: %s" % h.dominates(spbb, body[0][0]), (h, spbb))
@@ -536,26 +519,32 @@ def x5_list_headers(ctx):
         ctx.check(R, "%s:all-field-lines" % H, gt["callee"].endswith("get_all"),
                   "%s is read with %s: %s" % (H, gt["callee"].split("::")[-1], "every field line" if gt["callee"].endswith("get_all") else
                                              "only the first field line is seen, so `%s: %s` followed by a second `%s: %s` line is answered 400" % (H.title(), OTHER_TOKEN[H], H.title(), TOKENS[H])), (b, gbb))
-        seps, trims = set(), False
-        for sbb, t in b.switches():
-            sl = b.slice(t["discr"])
-            if not any(bb == gbb for _, bb, _ in sl.calls(GET)):
-                continue
-            for g in _closures_on(ctx.ds, sl):
-                trims = trims or bool(g.live_calls(r"str::<impl str>::trim$|trim_matches$"))
-                for bb, i, st in g.stmts():
-                    rv = st["rv"]
-                    if rv["rv"] == "binop" and rv["op"] == "Eq":
-                        for o in (rv["a"], rv["b"]):
-                            if o.get("k") == "const" and o.get("ty") == "char" and o.get("val"):
-                                seps.add(o["val"]["int"])
-                for bb, t2 in g.live_calls(r"str::<impl str>::split$"):
-                    for a in t2["args"][1:]:
-                        if a.get("k") == "const" and a.get("ty") == "char" and a.get("val"):
-                            seps.add(a["val"]["int"])
-        ok = 44 in seps and (trims or {32, 9} <= seps)
-        ctx.check(R, "%s:ows-is-sp-and-htab" % H, ok, "separator characters %s, items trimmed: %s%s" % (sorted(chr(c) for c in seps), trims,
-                  "" if ok else " — `%s: %s,<TAB>%s` is answered 400" % (H.title(), OTHER_TOKEN[H], TOKENS[H])), (b, gbb))
+        # tokenisation of the elements that are compared with the token: every `split` on the way from the header
+        # text to the compared element is asked, by concrete evaluation of its pattern, whether it separates at
+        # `,`, SP and HTAB; an element that is trimmed before the comparison needs no SP/HTAB separator
+        tests = [t for t in _token_tests(ctx, b, gbb) if t["lit"] is not None and t["lit"].lower() == TOKENS[H]]
+        if not tests:
+            ctx.lost(R, "the case-insensitive comparison of the elements of %s with %r" % (H, TOKENS[H]))
+            continue
+        ok_all, dets = True, []
+        for t in tests:
+            ans = {44: False, 32: False, 9: False}
+            undecided = False
+            for g, sbb, stt in chain_calls(t["chain"], SPLIT):
+                a = separator_answers(ctx.ds, g, stt, [44, 32, 9])
+                for ch, v in a.items():
+                    if v is None:
+                        undecided = True
+                    ans[ch] = ans[ch] or bool(v)
+            trims = bool(chain_calls(t["chain"], TRIM))
+            for g, tbb, tt in chain_calls(t["chain"], r"str::<impl str>::trim_matches$"):
+                a = pattern_answers(ctx.ds, g, tt["args"][1], [32, 9]) if len(tt["args"]) > 1 else {}
+                trims = trims or (a.get(32) is True and a.get(9) is True)
+            ok = ans[44] and (trims or (ans[32] and ans[9]))
+            ok_all = ok_all and ok
+            dets.append("separates at %s%s, elements trimmed: %s" % (sorted(repr(chr(c)) for c, v in ans.items() if v), " (a separator pattern could not be evaluated)" if undecided else "", trims))
+        ctx.check(R, "%s:ows-is-sp-and-htab" % H, ok_all, "%s%s" % ("; ".join(sorted(set(dets))),
+                  "" if ok_all else " — `%s: %s,<TAB>%s` is answered 400" % (H.title(), OTHER_TOKEN[H], TOKENS[H])), (b, gbb))
 
 
 OPTIONAL_RULES = []  # X5 is armed since the repair d8a2f7a in /repo
